@@ -85,7 +85,7 @@ def register(R):
             "ValueError": [("bad-arguments", "limit <= 0 or len(separator) < 1"), ("state-unchanged", "self.__buffer == old(self.__buffer)"), ("nothing-consumed", "T == old(self.__buffer)")],
             "LimitOverrunError": [
                 ("buffer-kept", "self.__buffer == T", "C02"),
-                ("remainder", "exc.remaining_data == fn('Resync', 'bytes', T, exc.consumed, separator)", "C02"),
+                ("remainder", "exc.remaining_data == Resync(T, exc.consumed, separator)", "C02"),
                 ("limit-case",
                  "(first(T, separator) == -1 and exc.consumed == len(T) + 1 - len(separator) and exc.consumed > limit)"
                  " or (first(T, separator) >= 0 and exc.consumed == first(T, separator) and exc.consumed > limit)", "C02 C07"),
